@@ -657,6 +657,13 @@ def fitwcs_sessions(mon, ck, boost):
                 rnames.append('weight')
         imcat = Table(cols, names=names)
         imcat.meta.update({'name': 'im', 'arr': np.arange(3.0)})
+        if seed % 2:
+            # a reference table that was used before (e.g. returned by an earlier align_wcs, or prepared for a direct
+            # XYXYMatch call): it already carries tangent-plane columns of ANOTHER plane - still caller-owned data
+            rcols += [nr.uniform(-500, 500, len(x)), nr.uniform(-500, 500, len(x))]
+            rnames += ['TPx', 'TPy']
+            cols += [nr.uniform(-500, 500, len(x)), nr.uniform(-500, 500, len(x))]
+            names += ['TPx', 'TPy']
         refcat = Table(rcols, names=rnames)
         refcat.meta.update({'name': 'ref', 'lst': [1.5, 2.5]})
         w0 = mkwcs(crval=(82.0 + 2e-5, 12.0 - 1e-5), rot=float(wtrue.wcs.cd[0, 0] * 0 + nr.choice([0.02, 0.0])) +
@@ -732,6 +739,10 @@ def align_sessions(mon, ck, boost):
         refcat = None
         if refmode == 'table':
             refcat = Table([ra, dec, np.arange(len(ra))], names=('RA', 'DEC', 'id'))
+            if seed % 2:
+                # already carries tangent-plane columns of another plane (see fitwcs_sessions)
+                refcat['TPx'] = nr.uniform(-500, 500, len(ra))
+                refcat['TPy'] = nr.uniform(-500, 500, len(ra))
             refcat.meta.update({'name': 'gaia', 'arr': np.ones(3)})
         elif refmode == 'corr':
             rw = mkwcs(crval=(82.0005, 12.0003), rot=2.0)
